@@ -198,20 +198,18 @@ func init() {
 			info := pkg.TypesInfo
 			fc := c.cfgOf(u, nil)
 			var loop *cfg.Block
-			var rng *ast.RangeStmt
-			for _, b := range fc.G.Blocks {
-				if rs, ok := b.Stmt.(*ast.RangeStmt); ok && b.Kind == cfg.KindRangeLoop && fc.Live(b) && FieldOfSelector(info, rs.X) == ext {
-					// the binding loop: the one whose body stores (a look-up-only
-					// loop in front of it is PKG.use-atomic's business)
-					binds := false
-					for _, ce := range callsIn(rs.Body, false) {
-						if originOf(Callee(info, ce)) == pput {
-							binds = true
-						}
+			var rng ast.Stmt
+			for _, sl := range fc.loopsOver(func(e ast.Expr) bool { return FieldOfSelector(info, e) == ext }) {
+				// the binding loop: the one whose body stores (a look-up-only
+				// loop in front of it is PKG.use-atomic's business)
+				binds := false
+				for _, ce := range callsIn(sl.Body, false) {
+					if originOf(Callee(info, ce)) == pput {
+						binds = true
 					}
-					if binds || loop == nil {
-						loop, rng = b, rs
-					}
+				}
+				if binds || loop == nil {
+					loop, rng = sl.Head, sl.Stmt
 				}
 			}
 			if loop == nil {
@@ -262,6 +260,31 @@ func init() {
 				for _, n := range d.Loc.B.Nodes {
 					if as, ok := n.(*ast.AssignStmt); ok && len(as.Lhs) == 1 && len(as.Rhs) == 1 && isBoolConst(info, as.Rhs[0], true) {
 						newFlag = identObj(info, as.Lhs[0])
+					}
+				}
+			}
+			// or a boolean local on whose true edge alone the package is created:
+			// `newpkg := pkg == nil; if newpkg { pkg = DefinePackage(name) }`
+			if newFlag == nil {
+				for _, d := range defs {
+					for _, b := range fc.G.Blocks {
+						cond := fc.CondOf(b)
+						if !fc.Live(b) || cond == nil {
+							continue
+						}
+						o, isVar := identObj(info, cond).(*types.Var)
+						if !isVar || o.IsField() {
+							continue
+						}
+						if bt, ok := o.Type().Underlying().(*types.Basic); !ok || bt.Kind() != types.Bool {
+							continue
+						}
+						if soleDef(info, fd.Body, cond) == nil {
+							continue
+						}
+						if t := b.Succs[0]; t != b.Succs[1] && fc.BlockDominates(t, d.Loc.B) && !fc.BlockDominates(b.Succs[1], d.Loc.B) {
+							newFlag = o
+						}
 					}
 				}
 			}
